@@ -63,8 +63,11 @@ JT == {TNum, TStr, TBool, TList(TNum), TList(TStr), TMap(TNum), TMap(TStr), TTup
 JVals == UNION {AllVals(t) : t \in JT} \cup {S(<<"a", "\"", "b">>), S(<<"\\", "LF", "TAB">>), S(<<"<", "b", "acute">>), NumV(-10), NumV(3), NumV(400), NumV(-1)}
 JFin == {v \in JVals : JTextable(v)}
 
+TSPool == {<<"2", "0", "2", "0", "-", "0", "2", "-", "2", "9", "T", "2", "3", ":", "5", "9", ":", "5", "9", "Z">>, <<"2", "0", "2", "1", "-", "0", "3", "-", "0", "9", "T", "0", "0", ":", "0", "7", ":", "3", "0", "Z">>, <<"1", "9", "9", "9", "-", "1", "2", "-", "3", "1", "T", "1", "2", ":", "0", "0", ":", "0", "0", "+", "0", "5", ":", "3", "0">>, <<"2", "0", "0", "0", "-", "0", "1", "-", "0", "1", "T", "1", "3", ":", "0", "5", ":", "0", "9", "-", "0", "8", ":", "0", "0">>, <<"2", "0", "2", "1", "-", "0", "2", "-", "2", "9", "T", "0", "0", ":", "0", "0", ":", "0", "0", "Z">>, <<"2", "0", "2", "0", "-", "1", "3", "-", "0", "1", "T", "0", "0", ":", "0", "0", ":", "0", "0", "Z">>, <<"2", "0", "2", "0", "-", "0", "1", "-", "0", "1", "T", "2", "4", ":", "0", "0", ":", "0", "0", "Z">>, <<"2", "0", "2", "0", "-", "0", "1", "-", "0", "1", "T", "0", "0", ":", "0", "0", ":", "0", "0", "+", "2", "4", ":", "0", "0">>, <<"2", "0", "2", "0", "-", "0", "1", "-", "0", "1", " ", "0", "0", ":", "0", "0", ":", "0", "0", "Z">>, <<"2", "0", "2", "0", "-", "0", "1", "-", "0", "1", "T", "0", "0", ":", "0", "0", ":", "0", "0">>, <<>>, <<"2", "0", "2", "0", "-", "0", "1", "-", "0", "1", "T", "0", "0", ":", "0", "0", ":", "0", "0", "+", "0", "0", ":", "0", "0">>, <<"0", "0", "0", "1", "-", "0", "1", "-", "0", "1", "T", "0", "0", ":", "0", "0", ":", "0", "0", "Z">>, <<"9", "9", "9", "9", "-", "1", "2", "-", "3", "1", "T", "2", "3", ":", "5", "9", ":", "5", "9", "Z">>, <<"2", "0", "2", "3", "-", "1", "0", "-", "0", "1", "T", "1", "1", ":", "5", "9", ":", "5", "9", "-", "0", "0", ":", "3", "0">>, <<"2", "0", "2", "4", "-", "1", "2", "-", "3", "1", "T", "2", "3", ":", "0", "0", ":", "0", "0", "+", "0", "1", ":", "0", "0">>, <<"2", "0", "1", "9", "-", "0", "6", "-", "1", "5", "T", "1", "2", ":", "3", "0", ":", "4", "5", "Z">>, <<"2", "0", "2", "0", "-", "0", "1", "-", "0", "1", "T", "0", "0", ":", "6", "0", ":", "0", "0", "Z">>, <<"2", "0", "2", "0", "-", "1", "-", "0", "1", "T", "0", "0", ":", "0", "0", ":", "0", "0", "Z">>, <<"2", "0", "2", "0", "-", "0", "1", "-", "0", "1", "T", "0", "0", ":", "0", "0", ":", "0", "0", "-", "0", "8", "0", "0">>}
+FDFormats == {<<"Y", "Y", "Y", "Y", "-", "M", "M", "-", "D", "D">>, <<"Y", "Y">>, <<"M">>, <<"M", "M">>, <<"M", "M", "M">>, <<"M", "M", "M", "M">>, <<"D">>, <<"D", "D">>, <<"E", "E", "E">>, <<"E", "E", "E", "E">>, <<"h">>, <<"h", "h">>, <<"H">>, <<"H", "H">>, <<"A", "A">>, <<"a", "a">>, <<"m">>, <<"m", "m">>, <<"s">>, <<"s", "s">>, <<"Z">>, <<"Z", "Z", "Z">>, <<"Z", "Z", "Z", "Z">>, <<"Z", "Z", "Z", "Z", "Z">>, <<"Y", "Y", "Y">>, <<"Y">>, <<"M", "M", "M", "M", "M">>, <<"D", "D", "D">>, <<"E">>, <<"E", "E">>, <<"h", "h", "h">>, <<"A">>, <<"a", "a", "a">>, <<"Z", "Z">>, <<"x">>, <<"'", "x", "'">>, <<"'", "'">>, <<"'", "a", "'", "'", "b", "'">>, <<"'", "u", "n", "t", "e", "r", "m", "i", "n", "a", "t", "e", "d">>, <<"h", "h", ":", "m", "m", ":", "s", "s", " ", "A", "A">>, <<"H", " ", "'", "o", "'", "'", "c", "l", "o", "c", "k", "'", " ", "a", "a">>, <<"D", "/", "M", "/", "Y", "Y">>, <<"Y", "Y", "Y", "Y", "-", "M", "M", "-", "D", "D", "'", "T", "'", "h", "h", ":", "m", "m", ":", "s", "s", "Z">>, <<>>, <<"E", "E", "E", "E", ",", " ", "D", "D", "-", "M", "M", "M", "-", "Y", "Y", " ", "h", "h", ":", "m", "m", ":", "s", "s", " ", "Z", "Z", "Z">>, <<"H", "H", ":", "m", "m", " ", "a", "a">>, <<"h", ".", "m", ".", "s">>, <<"m", "m", "m">>, <<"s", "s", "s">>, <<"'">>}
+Durations == {<<"1", "h">>, <<"-", "1", "h">>, <<"9", "0", "m">>, <<"1", "h", "3", "0", "m">>, <<"8", "6", "4", "0", "0", "s">>, <<"0", "s">>, <<"0">>, <<"1", "d">>, <<>>, <<"1">>, <<"h">>, <<"+", "1", "h">>, <<"-", "2", "4", "h">>, <<"1", "s">>, <<"-", "1", "s">>, <<"3", "6", "0", "0", "s">>, <<"1", ".", "5", "h">>, <<"1", "m", "s">>, <<"9", "9", "9", "h">>, <<"-", "9", "9", "9", "h">>, <<"1", "h", "-", "1", "m">>, <<"1", "m", "1", "h">>, <<"6", "0", "m">>, <<"-", "1", "m", "3", "0", "s">>, <<"2", "5", "h">>}
 ArgLists ==
-  CASE Fn \in {"ceil", "floor", "int", "signum", "abs", "negate"} -> {<<x>> : x \in NumP \cup Q({7, -7, 9, -9, 15, -15, -16, 401})}
+  CASE Fn \in {"ceil", "floor", "int", "signum", "abs", "negate"} -> {<<x>> : x \in NumP \cup Q({7, -7, 9, -9, 15, -15, -16, 401}) \cup {K(TNum, [lm |-> n]) : n \in {"almost1", "almost3", "malmost1", "malmost3", "tenth", "third", "mtenth"}}}
     [] Fn \in {"add", "subtract", "multiply", "divide", "modulo", "lessthan", "greaterthan", "lessthanorequalto", "greaterthanorequalto", "equal", "notequal", "pow", "log"}
          -> {<<x, y>> : x \in NumP, y \in NumP}
     [] Fn \in {"min", "max"} -> SeqsUpTo(NumS, 3)
@@ -83,6 +86,8 @@ ArgLists ==
     [] Fn = "format" -> FormatLists
     [] Fn = "formatlist" -> FormatListLists
     [] Fn \in {"jsonencode", "jsonencode>jsondecode"} -> {<<v>> : v \in JFin}
+    [] Fn = "formatdate" -> {<<S(f), S(t)>> : f \in FDFormats, t \in TSPool}
+    [] Fn = "timeadd" -> {<<S(t), S(d)>> : t \in TSPool, d \in Durations}
     [] Fn = "csvdecode" -> {<<S(t)>> : t \in CsvTexts}
     [] OTHER -> {}
 ASSUME LET sq == SetToSeq(ArgLists) IN
